@@ -121,7 +121,7 @@ class C06(Check):
         for mod, pid, frac, inquick in SUBS:
             if ctx.tier == "quick" and not inquick:
                 continue
-            jobs.append((pid, mod, pid, frac if ctx.tier == "quick" else min(1.0, frac * 2.5), cfgs, None))
+            jobs.append((pid, mod, pid, frac if ctx.tier == "quick" else min(1.0, frac * 2.5), cfgs, None, None))
         sweep_tab = []
         only = os.environ.get("VERIF_C06_ONLY")            # experimentation: run one job only (e.g. "sweep-C16")
         for pid, mod, macs, filt, fq, ft in SWEEPS:
@@ -129,8 +129,11 @@ class C06(Check):
             if f <= 0:
                 continue
             sc = sweep_cfgs(macs, ctx.tier)
-            jobs.append(("sweep-" + pid, mod, pid, f, sc, filt))
+            jobs.append(("sweep-" + pid, mod, pid, f, sc, filt, None))
             sweep_tab.append({"area": pid, "cfgs": [parse_cfg(c) for c in sc]})
+        # acceptance probe: complex element types with vectorisation switched off (finding D36: strided view access of a complex tensor
+        # does not compile under FASTOR_DONT_VECTORISE, it does under every SIMD configuration)
+        jobs.append(("accept-cx-scalar", "c05", "C05", 0.15 if ctx.tier == "quick" else 0.4, ["sse2-14-O2", "scalar-14-O2"], None, ["c64"]))
         swp = ctx.path("config_sweep.json")
         with open(swp, "w") as f:
             json.dump(sweep_tab, f)
@@ -139,7 +142,7 @@ class C06(Check):
         all_cfgs = list(cfgs)
         all_events, all_rejects, jst, nplan = [], [], 0, 0
         known_hits, viol, notes = {}, [], []
-        for label, mod, pid, frac_t, jcfgs, filt in jobs:
+        for label, mod, pid, frac_t, jcfgs, filt, jtypes in jobs:
             if only and label != only:
                 continue
             try:
@@ -149,8 +152,8 @@ class C06(Check):
             sub = getattr(m, pid)()
             all_cfgs += [c for c in jcfgs if c not in all_cfgs]
             if hasattr(sub, "types_quick"):
-                sub.types_quick = ["f64", "i32"]
-                sub.types_thorough = ["f64", "i32", "f32"]
+                sub.types_quick = jtypes or ["f64", "i32"]
+                sub.types_thorough = jtypes or ["f64", "i32", "f32"]
             sub.configs = lambda c, _cf=jcfgs: list(_cf)
             orig_plan = sub.plan
 
@@ -167,6 +170,7 @@ class C06(Check):
             sub.plan = sampled
             sub.model_checks = lambda c: None
             sub.allow_compile_fail = lambda: True
+            sub.cx_under_scalar = True
             sctx = Ctx.__new__(Ctx)
             sctx.__dict__.update(ctx.__dict__)
             sctx.work = os.path.join(ctx.work, label)
